@@ -69,12 +69,20 @@ def macro():
     lock = open(os.path.join(BUILD, "macro.lock"), "w")
     fcntl.flock(lock, fcntl.LOCK_EX)
     try:
+        if os.path.isdir(tdir):
+            try:
+                os.utime(tdir, None)            # mark as in use
+            except OSError:
+                pass
         if not os.path.exists(so + ".ok"):
-            # keep at most 3 other macro builds
-            olds = sorted(glob.glob(os.path.join(BUILD, "macro-*")), key=os.path.getmtime)
-            olds = [o for o in olds if o != tdir]
-            for o in olds[:-3] if len(olds) > 3 else []:
-                shutil.rmtree(o, ignore_errors=True)
+            # drop macro builds of other trees, but only ones nobody has used for three hours
+            now = time.time()
+            for o in glob.glob(os.path.join(BUILD, "macro-[0-9a-f]*")):
+                try:
+                    if o != tdir and now - os.path.getmtime(o) > 3 * 3600:
+                        shutil.rmtree(o, ignore_errors=True)
+                except OSError:
+                    pass
             cmd = ["cargo", "build", "--offline", "--lib", "--target-dir", tdir]
             p = subprocess.run(cmd, cwd=repo(), env=_env(), stdout=subprocess.PIPE,
                                stderr=subprocess.STDOUT, text=True)
